@@ -392,6 +392,12 @@ func run(c *eng.Ctx) error {
 				"bitfield-all", "bitfield-edge", "lat", "persist", "handshake", "handshake-bad", "list-corrupt"}[t]
 		}
 		c.W.Reset(t, map[string]any{"kind": kind})
+		// a panic inside the code under test is recorded as an event no specification action explains (=> rejected, replayable)
+		defer func() {
+			if e := recover(); e != nil {
+				c.W.Ev("Panic", "what", fmt.Sprint(e))
+			}
+		}()
 		switch kind {
 		case "digest-corrupt":
 			h := randHex(rng, 64, false)
